@@ -1,1 +1,35 @@
-fn main(){ println!("vh"); }
+//! Harness binding the TLA+ specifications in /verif/spec to the real wow_messages crates.
+//!
+//! `vh <subcommand> [args]` - every subcommand reads behaviour records (JSON lines, produced by
+//! TLC) or driver parameters, executes them against the public API of the real crates and prints
+//! JSON verdict / trace lines. Expectations come from the specifications, never from this code.
+//! A panic in the code under test is data (reported in a verdict), not a tool failure.
+
+mod chunks;
+mod codec;
+mod collective;
+mod crypto;
+mod definer;
+mod frames;
+mod mask;
+mod util;
+mod worker;
+
+fn main() {
+    let args: Vec<String> = std::env::args().collect();
+    let rc = match args.get(1).map(|s| s.as_str()) {
+        Some("frames") => frames::run(&args[2..]),
+        Some("crypto") => crypto::run(&args[2..]),
+        Some("chunks") => chunks::run(&args[2..]),
+        Some("mask") => mask::run(&args[2..]),
+        Some("definer") => definer::run(&args[2..]),
+        Some("codec") => codec::run(&args[2..]),
+        Some("collective") => collective::run(&args[2..]),
+        Some("worker") => worker::run(&args[2..]),
+        _ => {
+            eprintln!("usage: vh <frames|crypto|chunks|mask|definer|codec|collective|worker> ...");
+            2
+        }
+    };
+    std::process::exit(rc);
+}
